@@ -63,6 +63,13 @@ def pkginfo(pkg):
 
 def harness_files(pkg):
     d = os.path.join(VERIF, "harness", pkginfo(pkg)[0])
+    if pkg == "hmac":
+        # the vx API of package hmac is the stun one with the package clause replaced (regenerated when stale)
+        src = os.path.join(VERIF, "harness", "stun", "zz_vx_api.go")
+        dst = os.path.join(d, "zz_vx_api.go")
+        want = re.sub(r"(?m)^package stun$", "package hmac", open(src).read(), count=1)
+        if not os.path.exists(dst) or open(dst).read() != want:
+            open(dst, "w").write(want)
     return sorted(glob.glob(os.path.join(d, "zz_vx_*.go")))
 
 
